@@ -100,10 +100,8 @@ Section Distrib.
   Variable acc : typ -> member -> bool -> bool.
   Variable narrow : typ -> member -> list member.
   Variable posof : var -> posn.
-  (* exact narrowing tables: a matching member is kept as it is, a member that
-     does not match contributes nothing to the positive branch *)
+  (* a matching member is not changed by the positive narrowing *)
   Hypothesis H1 : forall T m ex, acc T m ex = true -> narrow T m = [m].
-  Hypothesis H2 : forall T m ex, acc T m ex = false -> narrow T m = [].
   Variable x : var.                   (* the union argument *)
   Variable sigma : var -> member.     (* the other arguments *)
 
@@ -187,13 +185,12 @@ Section Distrib.
   Qed.
 
   Lemma narrowed_seteq : forall T ex S,
-    seteq (nodupn (flat_map (narrow T) S)) (filter (fun m => acc T m ex) S).
+    seteq (nodupn (flat_map (narrow T) (filter (fun m => acc T m ex) S))) (filter (fun m => acc T m ex) S).
   Proof.
-    intros T ex S z. rewrite (nodupn_seteq _ z). rewrite in_flat_map, filter_In. split.
-    - intros [m [Hm Hz]]. destruct (acc T m ex) eqn:E.
-      + rewrite (H1 _ _ _ E) in Hz. destruct Hz as [<-|[]]. auto.
-      + rewrite (H2 _ _ _ E) in Hz. contradiction.
-    - intros [Hz E]. exists z. split; auto. rewrite (H1 _ _ _ E). now left.
+    intros T ex S z. rewrite (nodupn_seteq _ z). rewrite in_flat_map. split.
+    - intros [m [Hm Hz]]. pose proof Hm as Hm'. apply filter_In in Hm'. destruct Hm' as [_ E].
+      rewrite (H1 _ _ _ E) in Hz. destruct Hz as [<-|[]]. exact Hm.
+    - intros Hz. exists z. split; auto. apply filter_In in Hz. destruct Hz as [_ E]. rewrite (H1 _ _ _ E). now left.
   Qed.
 
   Lemma good_single_x : forall N, good [(x, N)].
@@ -268,8 +265,8 @@ Section Distrib.
                                  (filter (fun _ => negb (acc T (sigma v) ex)) (get rho x))).
       { intros z. rewrite !filter_In. now rewrite sig_m_other. }
       { intros z. rewrite !filter_In. now rewrite sig_m_other. }
-      cbn [forallb existsb flat_map]. rewrite app_nil_r. destruct (acc T (sigma v) ex) eqn:E; cbn [andb orb].
-      + rewrite (H1 _ _ _ E). change (nodupn [sigma v]) with [sigma v]. unfold cret_sets. split; [|split].
+      cbn [forallb existsb filter]. destruct (acc T (sigma v) ex) eqn:E; cbn [andb orb flat_map].
+      + rewrite (H1 _ _ _ E). change (nodupn ([sigma v] ++ [])) with [sigma v]. unfold cret_sets. split; [|split].
         * intros z Hz. apply filter_In in Hz. destruct Hz; discriminate.
         * apply good_single_other.
         * apply xset_app_unbound; auto using good_single_other, has_key_single_other.
@@ -601,32 +598,6 @@ End Distrib.
 
 (* ---------- statements and blocks -------------------------------------------- *)
 
-(* does the statement / block contain a return *)
-Fixpoint ret_stmt (s : stmt) : bool :=
-  match s with
-  | SReturn _ => true
-  | SIf _ b1 b2 => ret_block b1 || ret_block b2
-  | _ => false
-  end
-with ret_block (b : block) : bool :=
-  match b with BNil => false | BCons s b' => ret_stmt s || ret_block b' end.
-
-Definition is_bnil (b : block) : bool := match b with BNil => true | _ => false end.
-
-(* guard excluding the fall-through finding: a statement that contains a return
-   is the last statement of its block (so no statement is evaluated after an
-   `if` in which only some members returned) *)
-Fixpoint tail_stmt (s : stmt) : bool :=
-  match s with
-  | SIf _ b1 b2 => tail_block b1 && tail_block b2
-  | _ => true
-  end
-with tail_block (b : block) : bool :=
-  match b with
-  | BNil => true
-  | BCons s b' => tail_stmt s && tail_block b' && (is_bnil b' || negb (ret_stmt s))
-  end.
-
 Lemma seteq_map : forall (A B : Type) (f : A -> B) a b, seteq a b -> seteq (map f a) (map f b).
 Proof.
   intros A B f a b H z. rewrite !in_map_iff. split; intros [y [E Hy]]; exists y; split; auto; now apply H.
@@ -650,88 +621,84 @@ Proof.
   intros A l. induction l as [|[a|] l IH]; simpl; intros H; try discriminate; auto.
 Qed.
 
+Lemma forallb_is_some_true : forall (A : Type) (l : list (option A)) z,
+  forallb is_some l = true -> In z l -> z <> None.
+Proof.
+  intros A l z H Hz. rewrite forallb_forall in H. specialize (H z Hz). destruct z; [discriminate|discriminate H].
+Qed.
+
+Lemma only_removals_none : forall isany rho f v,
+  existsb isany (get rho v) = true -> lookup (only_removals isany rho f) v = None.
+Proof.
+  intros isany rho f v Ha. induction f as [|[w ms] f IH]; [reflexivity|].
+  unfold only_removals in *. cbn [filter fst snd].
+  destruct (w =? v) eqn:E.
+  - apply Nat.eqb_eq in E. subst w. rewrite Ha. cbn [negb andb]. exact IH.
+  - destruct (negb (existsb isany (get rho w)) && forallb (fun m => existsb (Nat.eqb m) (get rho w)) ms);
+      simpl; rewrite ?E; exact IH.
+Qed.
+
+Lemma only_removals_lookup : forall isany rho f v,
+  existsb isany (get rho v) = false ->
+  (forall ms, lookup f v = Some ms -> forall m, In m ms -> In m (get rho v)) ->
+  lookup (only_removals isany rho f) v = lookup f v.
+Proof.
+  intros isany rho f v Ha. induction f as [|[w ms] f IH]; intros H; [reflexivity|].
+  unfold only_removals in *. cbn [filter fst snd].
+  destruct (w =? v) eqn:E.
+  - apply Nat.eqb_eq in E. subst w.
+    assert (Hk : forallb (fun m => existsb (Nat.eqb m) (get rho v)) ms = true).
+    { apply forallb_forall. intros m Hm. apply existsb_exists. exists m. split; [|apply Nat.eqb_refl].
+      apply (H ms); auto. simpl. now rewrite Nat.eqb_refl. }
+    rewrite Ha, Hk. simpl. now rewrite Nat.eqb_refl.
+  - assert (Ht : lookup (filter (fun b => negb (existsb isany (get rho (fst b)))
+                                          && forallb (fun m => existsb (Nat.eqb m) (get rho (fst b))) (snd b)) f) v = lookup f v).
+    { apply IH. intros ms' Hl. apply H. simpl. now rewrite E. }
+    destruct (negb (existsb isany (get rho w)) && forallb (fun m => existsb (Nat.eqb m) (get rho w)) ms);
+      simpl; rewrite ?E; exact Ht.
+Qed.
+
 Section Blocks.
   Variable acc : typ -> member -> bool -> bool.
   Variable narrow : typ -> member -> list member.
   Variable posof : var -> posn.
+  Variable isany : member -> bool.
   Hypothesis H1 : forall T m ex, acc T m ex = true -> narrow T m = [m].
-  Hypothesis H2 : forall T m ex, acc T m ex = false -> narrow T m = [].
   Variable x : var.
   Variable sigma : var -> member.
 
   Notation sg := (sig_m x sigma).
   Notation oth := (others x sigma).
+  Notation gd := (good x sigma).
+  Notation xs := (xset x sigma).
 
-  Definition all_none (l : list (option rtype)) : Prop := l <> [] /\ forall z, In z l -> z = None.
+  Definition noany (S : list member) : Prop := forall m, In m S -> isany m = false.
+  Definition isnone (o : option rtype) : bool := match o with None => true | Some _ => false end.
+  (* does member m fall through the statement / block (reference semantics) *)
+  Definition NRs (s : stmt) (m : member) : bool := isnone (fst (sem_stmt acc posof (sg m) s)).
+  Definition NRb (b : block) (m : member) : bool := isnone (fst (sem_block acc posof (sg m) b)).
 
-  (* a return-free statement returns nothing, whatever the environment *)
-  Definition noret_stmt_ok (s : stmt) : Prop :=
-    ret_stmt s = false ->
-    (forall rho, all_none (fst (eval_stmt acc narrow posof rho s))) /\
-    (forall sg', fst (sem_stmt acc posof sg' s) = None).
-  Definition noret_block_ok (b : block) : Prop :=
-    ret_block b = false ->
-    (forall rho, all_none (fst (eval_block acc narrow posof rho b []))) /\
-    (forall sg', fst (sem_block acc posof sg' b) = None).
-
-  Lemma all_none_app : forall a b, all_none a -> all_none b -> all_none (a ++ b).
-  Proof.
-    intros a b [Na Ha] [Nb Hb]. split.
-    - destruct a; [congruence|discriminate].
-    - intros z Hz. apply in_app_or in Hz. destruct Hz; auto.
-  Qed.
-
-  Lemma all_none_facts : forall l, all_none l -> forallb is_some l = false /\ somes l = [].
-  Proof.
-    intros l [Hne Hall]. split.
-    - destruct l as [|a l]; [congruence|]. rewrite (Hall a (or_introl eq_refl)). reflexivity.
-    - induction l as [|a l IH]; auto. rewrite (Hall a (or_introl eq_refl)). simpl.
-      destruct l as [|b l]; auto. apply IH; [discriminate|]. intros z Hz. apply Hall. now right.
-  Qed.
-
-  Lemma noret_all : (forall s, noret_stmt_ok s) /\ (forall b, noret_block_ok b).
-  Proof.
-    apply (stmt_block_ind noret_stmt_ok noret_block_ok); unfold noret_stmt_ok, noret_block_ok.
-    - intros _. split; intros; [split; [discriminate|intros z [<-|[]]; auto]|reflexivity].
-    - intros r H. discriminate.
-    - intros m _. split; intros; [split; [discriminate|intros z [<-|[]]; auto]|reflexivity].
-    - intros c b1 IH1 b2 IH2 H. cbn [ret_stmt] in H. apply orb_false_iff in H. destruct H as [R1 R2].
-      destruct (IH1 R1) as [E1 S1]. destruct (IH2 R2) as [E2 S2]. split.
-      + intros rho. rewrite eval_stmt_if.
-        destruct (eval_cond acc narrow posof rho c) as [[l|] [r|]].
-        * specialize (E1 (l ++ rho)). specialize (E2 (r ++ rho)).
-          destruct (eval_block acc narrow posof (l ++ rho) b1 []) as [r1 e1].
-          destruct (eval_block acc narrow posof (r ++ rho) b2 []) as [r2 e2]. cbn [fst] in *.
-          now apply all_none_app.
-        * apply E1.
-        * apply E2.
-        * split; [discriminate|intros z [<-|[]]; auto].
-      + intros sg'. rewrite sem_stmt_if. destruct (sem_cond acc posof sg' c); auto.
-    - intros _. split; intros; [split; [discriminate|intros z [<-|[]]; auto]|reflexivity].
-    - intros s IHs b IHb H. cbn [ret_block] in H. apply orb_false_iff in H. destruct H as [R1 R2].
-      destruct (IHs R1) as [E1 S1]. destruct (IHb R2) as [E2 S2]. split.
-      + intros rho. rewrite eval_block_cons. specialize (E1 rho).
-        destruct (eval_stmt acc narrow posof rho s) as [res e]. cbn [fst] in E1.
-        destruct (all_none_facts _ E1) as [F1 F2]. rewrite F1, F2. cbn [app].
-        specialize (E2 rho). destruct (eval_block acc narrow posof rho b []) as [res' e']. exact E2.
-      + intros sg'. rewrite sem_block_cons. specialize (S1 sg'). specialize (S2 sg').
-        destruct (sem_stmt acc posof sg' s) as [[r|] e]; cbn [fst] in *; try discriminate.
-        destruct (sem_block acc posof sg' b) as [r' e']. exact S2.
-  Qed.
+  (* meaning of a fall-through varmap relative to the environment it is applied to *)
+  Definition ft_ok (rho0 : varmap) (S : list member) (NR : member -> bool) (ft : option varmap) : Prop :=
+    match ft with
+    | None => forall m, In m S -> NR m = false
+    | Some f => gd f /\ xs (f ++ rho0) (filter NR S) /\ nonempty (filter NR S)
+    end.
 
   Definition stmt_ok (s : stmt) : Prop :=
-    forall rho, oth rho -> nonempty (get rho x) -> tail_stmt s = true ->
-      seteq (fst (eval_stmt acc narrow posof rho s))
-            (map (fun m => fst (sem_stmt acc posof (sg m) s)) (get rho x)) /\
-      seteq (snd (eval_stmt acc narrow posof rho s))
-            (flat_map (fun m => snd (sem_stmt acc posof (sg m) s)) (get rho x)).
+    forall rho, oth rho -> nonempty (get rho x) -> noany (get rho x) ->
+      let '(res, errs, ft) := eval_stmt acc narrow posof isany rho s in
+      seteq res (map (fun m => fst (sem_stmt acc posof (sg m) s)) (get rho x)) /\
+      seteq errs (flat_map (fun m => snd (sem_stmt acc posof (sg m) s)) (get rho x)) /\
+      ft_ok rho (get rho x) (NRs s) ft.
 
   Definition block_ok (b : block) : Prop :=
-    forall rho, oth rho -> nonempty (get rho x) -> tail_block b = true ->
-      seteq (fst (eval_block acc narrow posof rho b []))
-            (map (fun m => fst (sem_block acc posof (sg m) b)) (get rho x)) /\
-      seteq (snd (eval_block acc narrow posof rho b []))
-            (flat_map (fun m => snd (sem_block acc posof (sg m) b)) (get rho x)).
+    forall rho0 narrowed rho possible, rho = narrowed ++ rho0 ->
+      oth rho0 -> gd narrowed -> nonempty (get rho x) -> noany (get rho x) ->
+      let '(res, errs, ft) := eval_block acc narrow posof isany rho b possible narrowed in
+      seteq res (map Some possible ++ map (fun m => fst (sem_block acc posof (sg m) b)) (get rho x)) /\
+      seteq errs (flat_map (fun m => snd (sem_block acc posof (sg m) b)) (get rho x)) /\
+      ft_ok rho0 (get rho x) (NRb b) ft.
 
   Lemma const_sets : forall (A : Type) (a : option rtype) (e : list msg) (S : list A),
     nonempty S ->
@@ -779,16 +746,65 @@ Section Blocks.
   Lemma empty_seteq_nil : forall (A : Type) (l : list A), empty l -> seteq [] l.
   Proof. intros A l H z. split; [intros []|intros Hz; exact (H z Hz)]. Qed.
 
+  (* the fall-through varmap of one branch, re-based on the environment of the `if` *)
+  Lemma ft_join_ok : forall rho l T NR ft,
+    gd l -> xs (l ++ rho) T -> (forall z, In z (get (l ++ rho) x) <-> In z T) ->
+    ft_ok (l ++ rho) (get (l ++ rho) x) NR ft ->
+    match ft_join l ft with
+    | None => forall m, In m T -> NR m = false
+    | Some u => gd u /\ xs (u ++ rho) (filter NR T) /\ nonempty (filter NR T) /\ (has_key l x = true -> has_key u x = true)
+    end.
+  Proof.
+    intros rho l T NR ft Gl Xl HT Hft. destruct ft as [f|]; simpl in *.
+    - destruct Hft as [Gf [Xf Nf]]. split; [now apply good_app|]. split; [|split].
+      + rewrite <- app_assoc. eapply xset_ext; [|exact Xf]. intros z. rewrite !filter_In, (HT z). tauto.
+      + destruct Nf as [z Hz]. exists z. apply filter_In in Hz. apply filter_In. rewrite <- (HT z). exact Hz.
+      + intros K. rewrite has_key_app, K. apply orb_true_r.
+    - intros m Hm. apply Hft. now apply HT.
+  Qed.
+
+  Lemma NRs_if : forall c b1 b2 m,
+    NRs (SIf c b1 b2) m = if Pc acc posof x sigma c m then NRb b1 m else NRb b2 m.
+  Proof.
+    intros. unfold NRs, NRb, Pc. rewrite sem_stmt_if. destruct (sem_cond acc posof (sg m) c); reflexivity.
+  Qed.
+
+  Lemma sem_block_cons_fst : forall s b m,
+    fst (sem_block acc posof (sg m) (BCons s b)) =
+    match fst (sem_stmt acc posof (sg m) s) with Some r => Some r | None => fst (sem_block acc posof (sg m) b) end.
+  Proof.
+    intros. rewrite sem_block_cons. destruct (sem_stmt acc posof (sg m) s) as [[r|] e]; cbn [fst]; auto.
+    destruct (sem_block acc posof (sg m) b); reflexivity.
+  Qed.
+
+  Lemma sem_block_cons_snd : forall s b m,
+    snd (sem_block acc posof (sg m) (BCons s b)) =
+    match fst (sem_stmt acc posof (sg m) s) with
+    | Some _ => snd (sem_stmt acc posof (sg m) s)
+    | None => snd (sem_stmt acc posof (sg m) s) ++ snd (sem_block acc posof (sg m) b)
+    end.
+  Proof.
+    intros. rewrite sem_block_cons. destruct (sem_stmt acc posof (sg m) s) as [[r|] e]; cbn [fst snd]; auto.
+    destruct (sem_block acc posof (sg m) b); reflexivity.
+  Qed.
+
   Lemma blocks_all : (forall s, stmt_ok s) /\ (forall b, block_ok b).
   Proof.
     apply (stmt_block_ind stmt_ok block_ok); unfold stmt_ok, block_ok.
-    - intros rho Ho Hne _. apply (const_sets _ None [] _ Hne).
-    - intros r rho Ho Hne _. apply (const_sets _ (Some r) [] _ Hne).
-    - intros m rho Ho Hne _. apply (const_sets _ None [m] _ Hne).
+    - (* SPass *) intros rho Ho Hne Hna. cbn [eval_stmt]. destruct (const_sets _ None [] _ Hne) as [A B].
+      split; [exact A|split; [exact B|]]. unfold ft_ok. split; [apply good_nil|split].
+      + split; [exact Ho|]. intros z. rewrite filter_In. unfold NRs. simpl. tauto.
+      + destruct Hne as [z Hz]. exists z. apply filter_In. split; auto.
+    - (* SReturn *) intros r rho Ho Hne Hna. cbn [eval_stmt]. destruct (const_sets _ (Some r) [] _ Hne) as [A B].
+      split; [exact A|split; [exact B|]]. intros m Hm. reflexivity.
+    - (* SError *) intros m rho Ho Hne Hna. cbn [eval_stmt]. destruct (const_sets _ None [m] _ Hne) as [A B].
+      split; [exact A|split; [exact B|]]. unfold ft_ok. split; [apply good_nil|split].
+      + split; [exact Ho|]. intros z. rewrite filter_In. unfold NRs. simpl. tauto.
+      + destruct Hne as [z Hz]. exists z. apply filter_In. split; auto.
     - (* SIf *)
-      intros c b1 IH1 b2 IH2 rho Ho Hne Ht. cbn [tail_stmt] in Ht. apply andb_true_iff in Ht. destruct Ht as [T1 T2].
+      intros c b1 IH1 b2 IH2 rho Ho Hne Hna.
       set (S := get rho x) in *. set (P := Pc acc posof x sigma c).
-      pose proof (proj1 (cond_all_ok acc narrow posof H1 H2 x sigma) c rho Ho Hne) as Hc. fold S in Hc. fold P in Hc.
+      pose proof (proj1 (cond_all_ok acc narrow posof H1 x sigma) c rho Ho Hne) as Hc. fold S in Hc. fold P in Hc.
       assert (Hsem1 : map (fun m => fst (sem_stmt acc posof (sg m) (SIf c b1 b2))) S =
                       map (fun m => if P m then fst (sem_block acc posof (sg m) b1) else fst (sem_block acc posof (sg m) b2)) S).
       { apply map_ext. intros m. rewrite sem_stmt_if. unfold P, Pc. destruct (sem_cond acc posof (sg m) c); reflexivity. }
@@ -797,157 +813,264 @@ Section Blocks.
       { apply flat_map_ext. intros m. rewrite sem_stmt_if. unfold P, Pc. destruct (sem_cond acc posof (sg m) c); reflexivity. }
       rewrite Hsem1, Hsem2. rewrite eval_stmt_if.
       destruct (eval_cond acc narrow posof rho c) as [[l|] [r|]]; unfold cret_sets in Hc.
-      + destruct Hc as [NT [NF [_ [_ [_ [_ [[Ol Sl] [Or Sr]]]]]]]].
+      + (* both branches *)
+        destruct Hc as [NT [NF [Gl [Gr [Kl [Kr [[Ol Sl] [Or Sr]]]]]]]].
         assert (Nl : nonempty (get (l ++ rho) x)) by (destruct NT as [z Hz]; exists z; now apply Sl).
         assert (Nr : nonempty (get (r ++ rho) x)) by (destruct NF as [z Hz]; exists z; now apply Sr).
-        destruct (IH1 (l ++ rho) Ol Nl T1) as [A1 B1]. destruct (IH2 (r ++ rho) Or Nr T2) as [A2 B2].
-        destruct (eval_block acc narrow posof (l ++ rho) b1 []) as [r1 e1].
-        destruct (eval_block acc narrow posof (r ++ rho) b2 []) as [r2 e2]. cbn [fst snd] in *.
-        split.
-        * eapply branch_sets; eauto.
-        * eapply branch_sets_flat; eauto.
-      + destruct Hc as [EF [_ [Ol Sl]]].
+        assert (Al : noany (get (l ++ rho) x)) by (intros m Hm; apply Sl in Hm; apply filter_In in Hm; apply Hna; tauto).
+        assert (Ar : noany (get (r ++ rho) x)) by (intros m Hm; apply Sr in Hm; apply filter_In in Hm; apply Hna; tauto).
+        pose proof (IH1 (l ++ rho) [] (l ++ rho) [] eq_refl Ol (good_nil x sigma) Nl Al) as I1.
+        pose proof (IH2 (r ++ rho) [] (r ++ rho) [] eq_refl Or (good_nil x sigma) Nr Ar) as I2.
+        destruct (eval_block acc narrow posof isany (l ++ rho) b1 [] []) as [[r1 e1] f1].
+        destruct (eval_block acc narrow posof isany (r ++ rho) b2 [] []) as [[r2 e2] f2].
+        destruct I1 as [A1 [B1 F1]]. destruct I2 as [A2 [B2 F2]]. cbn [map app] in A1, A2.
+        pose proof (ft_join_ok rho l (filter P S) (NRb b1) f1 Gl (conj Ol Sl) Sl F1) as J1.
+        pose proof (ft_join_ok rho r (filter (fun m => negb (P m)) S) (NRb b2) f2 Gr (conj Or Sr) Sr F2) as J2.
+        split; [eapply branch_sets; eauto|]. split; [eapply branch_sets_flat; eauto|].
+        destruct (ft_join l f1) as [u|]; destruct (ft_join r f2) as [v|]; cbn [ft_unite].
+        * destruct J1 as [Gu [Xu [Nu Ku]]]. destruct J2 as [Gv [Xv [Nv Kv]]].
+          specialize (Ku Kl). specialize (Kv Kr).
+          destruct (unite_some u [v]) as [U HU]. rewrite HU.
+          assert (HgU : gd U).
+          { eapply good_unite; [|exact HU]. repeat constructor; auto. }
+          destruct (unite_bound x u [v] U HU) as [KU GU].
+          { simpl. now rewrite Ku, Kv. }
+          pose proof (xset_get_bound _ _ _ _ _ Xu Ku) as Hu. pose proof (xset_get_bound _ _ _ _ _ Xv Kv) as Hv.
+          unfold ft_ok. split; [exact HgU|]. split.
+          -- apply xset_app_bound; auto. rewrite GU. intros z. rewrite (nodupn_seteq _ z). simpl. rewrite app_nil_r.
+             rewrite in_app_iff, (Hu z), (Hv z), !filter_In, NRs_if. fold P.
+             destruct (P z); simpl; intuition discriminate.
+          -- destruct Nu as [z Hz]. exists z. apply filter_In in Hz. destruct Hz as [Hz E].
+             apply filter_In in Hz. destruct Hz as [Hz EP]. apply filter_In. split; auto.
+             rewrite NRs_if. fold P. now rewrite EP.
+        * destruct J1 as [Gu [Xu [Nu _]]]. unfold ft_ok. split; [exact Gu|]. split.
+          -- eapply xset_ext; [|exact Xu]. intros z. rewrite !filter_In, NRs_if. fold P. split.
+             ++ intros [[Hz EP] E]. rewrite EP. auto.
+             ++ intros [Hz E]. destruct (P z) eqn:EP; auto.
+                exfalso. assert (In z (filter (fun m => negb (P m)) S)) by (apply filter_In; rewrite EP; auto).
+                rewrite (J2 z H) in E. discriminate.
+          -- destruct Nu as [z Hz]. exists z. apply filter_In in Hz. destruct Hz as [Hz E].
+             apply filter_In in Hz. destruct Hz as [Hz EP]. apply filter_In. split; auto.
+             rewrite NRs_if. fold P. now rewrite EP.
+        * destruct J2 as [Gv [Xv [Nv _]]]. unfold ft_ok. split; [exact Gv|]. split.
+          -- eapply xset_ext; [|exact Xv]. intros z. rewrite !filter_In, NRs_if. fold P. split.
+             ++ intros [[Hz EP] E]. apply negb_true_iff in EP. rewrite EP. auto.
+             ++ intros [Hz E]. destruct (P z) eqn:EP; auto.
+                exfalso. assert (In z (filter P S)) by (apply filter_In; auto).
+                rewrite (J1 z H) in E. discriminate.
+          -- destruct Nv as [z Hz]. exists z. apply filter_In in Hz. destruct Hz as [Hz E].
+             apply filter_In in Hz. destruct Hz as [Hz EP]. apply negb_true_iff in EP. apply filter_In. split; auto.
+             rewrite NRs_if. fold P. now rewrite EP.
+        * unfold ft_ok. intros m Hm. rewrite NRs_if. fold P. destruct (P m) eqn:EP.
+          -- apply J1. apply filter_In. auto.
+          -- apply J2. apply filter_In. rewrite EP. auto.
+      + (* only the body *)
+        destruct Hc as [EF [Gl [Ol Sl]]].
+        assert (Hall : forall z, In z S -> P z = true).
+        { intros z Hz. destruct (P z) eqn:E; auto. exfalso. apply (EF z). apply filter_In. rewrite E. auto. }
         assert (Nl : nonempty (get (l ++ rho) x)).
-        { destruct Hne as [z Hz]. exists z. apply Sl. apply filter_In. split; auto.
-          destruct (P z) eqn:E; auto. exfalso. apply (EF z). apply filter_In. rewrite E. auto. }
-        destruct (IH1 (l ++ rho) Ol Nl T1) as [A1 B1].
-        destruct (eval_block acc narrow posof (l ++ rho) b1 []) as [r1 e1]. cbn [fst snd] in *.
-        split.
+        { destruct Hne as [z Hz]. exists z. apply Sl. apply filter_In. split; auto. }
+        assert (Al : noany (get (l ++ rho) x)) by (intros m Hm; apply Sl in Hm; apply filter_In in Hm; apply Hna; tauto).
+        pose proof (IH1 (l ++ rho) [] (l ++ rho) [] eq_refl Ol (good_nil x sigma) Nl Al) as I1.
+        destruct (eval_block acc narrow posof isany (l ++ rho) b1 [] []) as [[r1 e1] f1].
+        destruct I1 as [A1 [B1 F1]]. cbn [map app] in A1.
+        pose proof (ft_join_ok rho l (filter P S) (NRb b1) f1 Gl (conj Ol Sl) Sl F1) as J1.
+        split; [|split].
         * rewrite <- (app_nil_r r1). eapply (branch_sets _ P _ _ S _ []); eauto.
           -- now apply empty_seteq_nil.
           -- apply seteq_refl.
         * rewrite <- (app_nil_r e1). eapply (branch_sets_flat _ P _ _ S _ []); eauto.
           -- now apply empty_seteq_nil.
           -- apply seteq_refl.
-      + destruct Hc as [ET [_ [Or Sr]]].
+        * destruct (ft_join l f1) as [u|]; unfold ft_ok.
+          -- destruct J1 as [Gu [Xu [Nu _]]]. split; [exact Gu|]. split.
+             ++ eapply xset_ext; [|exact Xu]. intros z. rewrite !filter_In, NRs_if. fold P. split.
+                ** intros [[Hz EP] E]. rewrite EP. auto.
+                ** intros [Hz E]. rewrite (Hall z Hz) in E. auto.
+             ++ destruct Nu as [z Hz]. exists z. apply filter_In in Hz. destruct Hz as [Hz E].
+                apply filter_In in Hz. destruct Hz as [Hz EP]. apply filter_In. split; auto.
+                rewrite NRs_if. fold P. now rewrite EP.
+          -- intros m Hm. rewrite NRs_if. fold P. rewrite (Hall m Hm). apply J1. apply filter_In. auto.
+      + (* only the else branch *)
+        destruct Hc as [ET [Gr [Or Sr]]].
+        assert (Hnone : forall z, In z S -> P z = false).
+        { intros z Hz. destruct (P z) eqn:E; auto. exfalso. apply (ET z). apply filter_In. auto. }
         assert (Nr : nonempty (get (r ++ rho) x)).
-        { destruct Hne as [z Hz]. exists z. apply Sr. apply filter_In. split; auto.
-          destruct (P z) eqn:E; auto. exfalso. apply (ET z). apply filter_In. auto. }
-        destruct (IH2 (r ++ rho) Or Nr T2) as [A2 B2].
-        destruct (eval_block acc narrow posof (r ++ rho) b2 []) as [r2 e2]. cbn [fst snd] in *.
-        split.
+        { destruct Hne as [z Hz]. exists z. apply Sr. apply filter_In. split; auto. now rewrite (Hnone z Hz). }
+        assert (Ar : noany (get (r ++ rho) x)) by (intros m Hm; apply Sr in Hm; apply filter_In in Hm; apply Hna; tauto).
+        pose proof (IH2 (r ++ rho) [] (r ++ rho) [] eq_refl Or (good_nil x sigma) Nr Ar) as I2.
+        destruct (eval_block acc narrow posof isany (r ++ rho) b2 [] []) as [[r2 e2] f2].
+        destruct I2 as [A2 [B2 F2]]. cbn [map app] in A2.
+        pose proof (ft_join_ok rho r (filter (fun m => negb (P m)) S) (NRb b2) f2 Gr (conj Or Sr) Sr F2) as J2.
+        split; [|split].
         * change r2 with ([] ++ r2). eapply (branch_sets _ P _ _ S []); eauto.
           -- now apply empty_seteq_nil.
           -- apply seteq_refl.
         * change e2 with ([] ++ e2). eapply (branch_sets_flat _ P _ _ S []); eauto.
           -- now apply empty_seteq_nil.
           -- apply seteq_refl.
+        * destruct (ft_join r f2) as [v|]; unfold ft_ok.
+          -- destruct J2 as [Gv [Xv [Nv _]]]. split; [exact Gv|]. split.
+             ++ eapply xset_ext; [|exact Xv]. intros z. rewrite !filter_In, NRs_if. fold P. split.
+                ** intros [[Hz EP] E]. apply negb_true_iff in EP. rewrite EP. auto.
+                ** intros [Hz E]. rewrite (Hnone z Hz) in *. auto.
+             ++ destruct Nv as [z Hz]. exists z. apply filter_In in Hz. destruct Hz as [Hz E].
+                apply filter_In in Hz. destruct Hz as [Hz EP]. apply negb_true_iff in EP. apply filter_In. split; auto.
+                rewrite NRs_if. fold P. now rewrite EP.
+          -- intros m Hm. rewrite NRs_if. fold P. rewrite (Hnone m Hm). apply J2. apply filter_In. rewrite (Hnone m Hm). auto.
       + contradiction.
-    - (* BNil *) intros rho Ho Hne _. apply (const_sets _ None [] _ Hne).
+    - (* BNil *)
+      intros rho0 narrowed rho possible Erho Ho Hgn Hne Hna. cbn [eval_block].
+      destruct (const_sets _ None [] _ Hne) as [A B]. split; [|split].
+      + intros z. rewrite !in_app_iff. rewrite <- (A z). tauto.
+      + exact B.
+      + unfold ft_ok. split; [exact Hgn|]. split.
+        * rewrite <- Erho. split; [rewrite Erho; now apply others_app|].
+          intros z. rewrite filter_In. unfold NRb. simpl. tauto.
+        * destruct Hne as [z Hz]. exists z. apply filter_In. split; auto.
     - (* BCons *)
-      intros s IHs b IHb rho Ho Hne Ht. cbn [tail_block] in Ht.
-      apply andb_true_iff in Ht. destruct Ht as [Ht Hlast]. apply andb_true_iff in Ht. destruct Ht as [Ts Tb].
-      destruct (IHs rho Ho Hne Ts) as [As Bs].
-      rewrite eval_block_cons.
-      assert (Hsem1 : forall m, fst (sem_block acc posof (sg m) (BCons s b)) =
-                match fst (sem_stmt acc posof (sg m) s) with Some r => Some r | None => fst (sem_block acc posof (sg m) b) end).
-      { intros m. rewrite sem_block_cons. destruct (sem_stmt acc posof (sg m) s) as [[r|] e]; cbn [fst]; auto.
-        destruct (sem_block acc posof (sg m) b); reflexivity. }
-      assert (Hsem2 : forall m, snd (sem_block acc posof (sg m) (BCons s b)) =
-                match fst (sem_stmt acc posof (sg m) s) with
-                | Some r => snd (sem_stmt acc posof (sg m) s)
-                | None => snd (sem_stmt acc posof (sg m) s) ++ snd (sem_block acc posof (sg m) b) end).
-      { intros m. rewrite sem_block_cons. destruct (sem_stmt acc posof (sg m) s) as [[r|] e]; cbn [fst snd]; auto.
-        destruct (sem_block acc posof (sg m) b); reflexivity. }
-      rewrite (map_ext _ _ Hsem1), (flat_map_ext _ _ Hsem2).
-      destruct b as [|s2 b2].
-      + (* s is the last statement *)
-        destruct (eval_stmt acc narrow posof rho s) as [res e]. cbn [fst snd] in *.
-        assert (Hr : seteq res (map (fun m => match fst (sem_stmt acc posof (sg m) s) with Some r => Some r | None => fst (sem_block acc posof (sg m) BNil) end) (get rho x))).
-        { intros z. rewrite (As z), !in_map_iff. split; intros [m [E Hm]]; exists m; split; auto;
-            destruct (fst (sem_stmt acc posof (sg m) s)); auto. }
-        assert (He : seteq e (flat_map (fun m => match fst (sem_stmt acc posof (sg m) s) with
-                                  | Some _ => snd (sem_stmt acc posof (sg m) s)
-                                  | None => snd (sem_stmt acc posof (sg m) s) ++ snd (sem_block acc posof (sg m) BNil) end) (get rho x))).
-        { intros z. rewrite (Bs z), !in_flat_map. split; intros [m [Hm E]]; exists m; split; auto;
-            destruct (fst (sem_stmt acc posof (sg m) s)); auto.
-          - apply in_or_app. now left.
-          - apply in_app_or in E. destruct E as [E|[]]. exact E. }
-        destruct (forallb is_some res) eqn:Fs.
-        * cbn [map app fst snd]. split; auto.
-        * change (eval_block acc narrow posof rho BNil ([] ++ somes res)) with (map Some (somes res) ++ [None], @nil msg).
-          cbn [fst snd]. rewrite app_nil_r. split; auto.
-          intros z. rewrite <- (Hr z). rewrite in_app_iff, in_map_iff. split.
-          -- intros [[a [<- Ha]]|[<-|[]]].
-             ++ now apply somes_in.
-             ++ now apply forallb_is_some_false.
-          -- intros Hz. destruct z as [a|]; [left|right; now left].
-             exists a. split; auto. now apply somes_in.
-      + (* more statements follow: s contains no return *)
-        cbn [is_bnil orb] in Hlast. apply negb_true_iff in Hlast.
-        destruct (proj1 noret_all s Hlast) as [E1 S1].
-        specialize (E1 rho). destruct (eval_stmt acc narrow posof rho s) as [res e]. cbn [fst snd] in *.
-        destruct (all_none_facts _ E1) as [F1 F2]. rewrite F1, F2. cbn [app].
-        destruct (IHb rho Ho Hne Tb) as [Ab Bb].
-        destruct (eval_block acc narrow posof rho (BCons s2 b2) []) as [res' e']. cbn [fst snd] in *.
-        split.
-        * intros z. rewrite (Ab z), !in_map_iff. split; intros [m [E Hm]]; exists m; split; auto;
-            rewrite (S1 (sg m)) in *; auto.
+      intros s IHs b IHb rho0 narrowed rho possible Erho Ho Hgn Hne Hna.
+      assert (Horho : oth rho) by (rewrite Erho; now apply others_app).
+      set (S := get rho x) in *.
+      rewrite eval_block_cons. specialize (IHs rho Horho Hne Hna). fold S in IHs.
+      destruct (eval_stmt acc narrow posof isany rho s) as [[res e] ft]. destruct IHs as [As [Bs Fs]].
+      rewrite (map_ext _ _ (sem_block_cons_fst s b)), (flat_map_ext _ _ (sem_block_cons_snd s b)).
+      destruct (forallb is_some res) eqn:Fall.
+      + (* every member returns in s *)
+        assert (Hret : forall m, In m S -> exists r, fst (sem_stmt acc posof (sg m) s) = Some r).
+        { intros m Hm. destruct (fst (sem_stmt acc posof (sg m) s)) as [r|] eqn:E; eauto.
+          exfalso. assert (Hin : In (@None rtype) res) by (apply As; apply in_map_iff; exists m; auto).
+          exact (forallb_is_some_true _ _ _ Fall Hin eq_refl). }
+        split; [|split].
+        * intros z. rewrite !in_app_iff, (As z), !in_map_iff. split.
+          -- intros [H|[m [E Hm]]]; auto. right. exists m. split; auto. destruct (Hret m Hm) as [r Er]. rewrite Er in *. auto.
+          -- intros [H|[m [E Hm]]]; auto. right. exists m. split; auto. destruct (Hret m Hm) as [r Er]. rewrite Er in *. auto.
+        * intros z. rewrite (Bs z), !in_flat_map. split; intros [m [Hm E]]; exists m; split; auto;
+            destruct (Hret m Hm) as [r Er]; rewrite Er in *; auto.
+        * unfold ft_ok. intros m Hm. unfold NRb. rewrite sem_block_cons_fst. destruct (Hret m Hm) as [r Er]. now rewrite Er.
+      + (* some member falls through s *)
+        assert (Hnone : exists m0, In m0 S /\ NRs s m0 = true).
+        { pose proof (forallb_is_some_false _ _ Fall) as Hin. apply As in Hin. apply in_map_iff in Hin.
+          destruct Hin as [m0 [E Hm0]]. exists m0. split; auto. unfold NRs. now rewrite E. }
+        destruct ft as [f|]; [|exfalso; destruct Hnone as [m0 [Hm0 E]]; rewrite (Fs m0 Hm0) in E; discriminate].
+        destruct Fs as [Gf [Xf Nf]]. cbv beta iota zeta.
+        set (f' := if is_nil (somes res) then [] else only_removals isany rho f).
+        assert (HnaS : existsb isany S = false).
+        { destruct (existsb isany S) eqn:Ee; auto. apply existsb_exists in Ee. destruct Ee as [m [Hm Em]].
+          rewrite (Hna m Hm) in Em. discriminate. }
+        assert (Hsub : forall v ms, lookup f v = Some ms -> forall m, In m ms -> In m (get rho v)).
+        { intros v ms Hl m Hm. destruct (Nat.eq_dec v x) as [->|Hv].
+          - assert (K : has_key f x = true) by (unfold has_key; now rewrite Hl).
+            pose proof (xset_get_bound _ _ _ _ _ Xf K) as Hg. unfold get in Hg. rewrite Hl in Hg.
+            apply Hg in Hm. apply filter_In in Hm. apply Hm.
+          - rewrite (Gf v ms Hv Hl) in Hm. rewrite (Horho v Hv). exact Hm. }
+        assert (Hlk : forall v, lookup (only_removals isany rho f) v =
+                                if existsb isany (get rho v) then None else lookup f v).
+        { intros v. destruct (existsb isany (get rho v)) eqn:Ea.
+          - now apply only_removals_none.
+          - apply only_removals_lookup; auto. intros ms Hl. now apply Hsub. }
+        assert (Hf' : gd f' /\ xs (f' ++ rho) (filter (NRs s) S)).
+        { unfold f'. destruct (somes res) as [|a0 l0] eqn:Es; cbn [is_nil].
+          - split; [apply good_nil|]. split; [exact Horho|].
+            intros z. change (get ([] ++ rho) x) with S. rewrite filter_In. split; [|tauto]. intros Hz. split; auto.
+            unfold NRs. destruct (fst (sem_stmt acc posof (sg z) s)) as [r0|] eqn:Er; auto. exfalso.
+            assert (Hin : In (Some r0) res) by (apply As; apply in_map_iff; exists z; auto).
+            apply somes_in in Hin. rewrite Es in Hin. contradiction.
+          - destruct Xf as [Of Sf]. split; [|split].
+            + intros v ms Hv Hl. rewrite Hlk in Hl. destruct (existsb isany (get rho v)); [discriminate|]. eapply Gf; eauto.
+            + intros v Hv. rewrite get_app, Hlk. destruct (existsb isany (get rho v)).
+              * apply Horho; auto.
+              * destruct (lookup f v) as [ms|] eqn:El; [rewrite (Gf v ms Hv El); reflexivity|apply Horho; auto].
+            + rewrite get_app, Hlk. fold S. rewrite HnaS. rewrite get_app in Sf. exact Sf. }
+        destruct Hf' as [Gf' Xf'].
+        assert (HS' : seteq (get (f' ++ rho) x) (filter (NRs s) S)) by (apply Xf').
+        assert (Nf' : nonempty (get (f' ++ rho) x)) by (destruct Nf as [z Hz]; exists z; now apply HS').
+        assert (E' : f' ++ rho = (f' ++ narrowed) ++ rho0) by (rewrite Erho; apply app_assoc).
+        assert (Af' : noany (get (f' ++ rho) x)) by (intros m Hm; apply HS' in Hm; apply filter_In in Hm; apply Hna; tauto).
+        specialize (IHb rho0 (f' ++ narrowed) (f' ++ rho) (possible ++ somes res) E' Ho (good_app _ _ _ _ Gf' Hgn) Nf' Af').
+        destruct (eval_block acc narrow posof isany (f' ++ rho) b (possible ++ somes res) (f' ++ narrowed)) as [[res' e'] ft'].
+        destruct IHb as [Ab [Bb Fb]].
+        assert (HinS' : forall m, In m (get (f' ++ rho) x) <-> In m S /\ fst (sem_stmt acc posof (sg m) s) = None).
+        { intros m. rewrite (HS' m), filter_In. unfold NRs. destruct (fst (sem_stmt acc posof (sg m) s)); simpl; intuition discriminate. }
+        split; [|split].
+        * intros z. rewrite (Ab z), map_app, !in_app_iff, !in_map_iff. split.
+          -- intros [[H|[a [<- Ha]]]|[m [E Hm]]]; auto.
+             ++ apply somes_in in Ha. apply As in Ha. apply in_map_iff in Ha. destruct Ha as [m [E Hm]].
+                right. exists m. split; auto. now rewrite E.
+             ++ apply HinS' in Hm. destruct Hm as [Hm En]. right. exists m. split; auto. now rewrite En.
+          -- intros [H|[m [E Hm]]]; auto.
+             destruct (fst (sem_stmt acc posof (sg m) s)) as [r|] eqn:Er.
+             ++ left. right. exists r. split; auto. apply somes_in. apply As. apply in_map_iff. exists m. auto.
+             ++ right. exists m. split; auto. apply HinS'. auto.
         * intros z. rewrite in_app_iff, (Bs z), (Bb z), !in_flat_map. split.
-          -- intros [[m [Hm E]]|[m [Hm E]]]; exists m; split; auto; rewrite (S1 (sg m)); apply in_or_app; auto.
-          -- intros [m [Hm E]]. rewrite (S1 (sg m)) in E. apply in_app_or in E. destruct E; [left|right]; exists m; auto.
-  Qed.
-
-  (* the theorem: types and show_error sites of the union call = union over the members *)
-  Theorem union_distributes : forall rho ms body dflt,
-    ms <> [] ->
-    (forall v, v <> x -> get rho v = [sigma v]) ->
-    tail_block body = true ->
-    seteq (fst (evaluate acc narrow posof ((x, ms) :: rho) body dflt))
-          (flat_map (fun m => fst (evaluate acc narrow posof ((x, [m]) :: rho) body dflt)) ms) /\
-    seteq (snd (evaluate acc narrow posof ((x, ms) :: rho) body dflt))
-          (flat_map (fun m => snd (evaluate acc narrow posof ((x, [m]) :: rho) body dflt)) ms).
-  Proof.
-    intros rho ms body dflt Hne Hoth Ht.
-    assert (Hmember : forall m, evaluate acc narrow posof ((x, [m]) :: rho) body dflt =
-                                 sem_evaluate acc posof (sg m) body dflt).
-    { intros m. apply (evaluate_single acc narrow posof H1 (sg m)).
-      intros v. unfold get. simpl. destruct (x =? v) eqn:E.
-      - apply Nat.eqb_eq in E. subst v. unfold sig_m. now rewrite Nat.eqb_refl.
-      - apply Nat.eqb_neq in E. unfold sig_m. assert (v <> x) by congruence.
-        apply Nat.eqb_neq in H. rewrite H. apply Nat.eqb_neq in H. apply (Hoth v H). }
-    assert (Ho : oth ((x, ms) :: rho)).
-    { intros v Hv. unfold get. simpl. destruct (x =? v) eqn:E.
-      - apply Nat.eqb_eq in E. congruence.
-      - apply (Hoth v Hv). }
-    assert (Hg : get ((x, ms) :: rho) x = ms) by (unfold get; simpl; now rewrite Nat.eqb_refl).
-    assert (Hn : nonempty (get ((x, ms) :: rho) x)).
-    { rewrite Hg. destruct ms as [|m ms']; [congruence|]. exists m. now left. }
-    destruct (proj2 blocks_all body _ Ho Hn Ht) as [A B]. rewrite Hg in A, B.
-    unfold evaluate at 1 3. destruct (eval_block acc narrow posof ((x, ms) :: rho) body []) as [res errs].
-    cbn [fst snd] in *. split.
-    - intros z. rewrite (nodupn_seteq _ z), in_map_iff, in_flat_map. split.
-      + intros [o [<- Ho']]. apply A in Ho'. apply in_map_iff in Ho'. destruct Ho' as [m [<- Hm]].
-        exists m. split; auto. rewrite Hmember. unfold sem_evaluate.
-        destruct (sem_block acc posof (sg m) body) as [r e]. now left.
-      + intros [m [Hm Hz]]. rewrite Hmember in Hz. unfold sem_evaluate in Hz.
-        destruct (sem_block acc posof (sg m) body) as [r e] eqn:E. cbn [fst] in Hz. destruct Hz as [<-|[]].
-        exists r. split; auto. apply A. apply in_map_iff. exists m. rewrite E. auto.
-    - intros z. rewrite (nodupn_seteq _ z), (B z), !in_flat_map. split.
-      + intros [m [Hm Hz]]. exists m. split; auto. rewrite Hmember. unfold sem_evaluate.
-        destruct (sem_block acc posof (sg m) body) as [r e]. cbn [snd] in *. apply (proj2 (nodupn_seteq _ _)). exact Hz.
-      + intros [m [Hm Hz]]. exists m. split; auto. rewrite Hmember in Hz. unfold sem_evaluate in Hz.
-        destruct (sem_block acc posof (sg m) body) as [r e]. cbn [snd] in *. apply (proj1 (nodupn_seteq _ _)) in Hz. exact Hz.
+          -- intros [[m [Hm E]]|[m [Hm E]]].
+             ++ exists m. split; auto. destruct (fst (sem_stmt acc posof (sg m) s)); auto. apply in_or_app. now left.
+             ++ apply HinS' in Hm. destruct Hm as [Hm En]. exists m. split; auto. rewrite En. apply in_or_app. now right.
+          -- intros [m [Hm E]]. destruct (fst (sem_stmt acc posof (sg m) s)) as [r|] eqn:Er.
+             ++ left. exists m. auto.
+             ++ apply in_app_or in E. destruct E as [E|E]; [left; exists m; auto|].
+                right. exists m. split; auto. apply HinS'. auto.
+        * assert (HNR : forall m, NRb (BCons s b) m = NRs s m && NRb b m).
+          { intros m. unfold NRb, NRs. rewrite sem_block_cons_fst. destruct (fst (sem_stmt acc posof (sg m) s)); reflexivity. }
+          destruct ft' as [g'|]; unfold ft_ok in *.
+          -- destruct Fb as [Gg [Xg Nf'']]. split; [exact Gg|]. split.
+             ++ eapply xset_ext; [|exact Xg]. intros z. rewrite !filter_In, (HS' z), filter_In, HNR, andb_true_iff. tauto.
+             ++ destruct Nf'' as [z Hz]. exists z. apply filter_In in Hz. destruct Hz as [Hz E].
+                apply HS' in Hz. apply filter_In in Hz. destruct Hz as [Hz E1]. apply filter_In. split; auto.
+                rewrite HNR, E1, E. reflexivity.
+          -- intros m Hm. rewrite HNR. destruct (NRs s m) eqn:E1; auto. simpl. apply Fb. apply HS'. apply filter_In. auto.
   Qed.
 End Blocks.
+
+(* the theorem: types and show_error sites of the union call = union over the
+   members, for every body *)
+Theorem union_distributes : union_distributes_full_statement.
+Proof.
+  intros acc narrow posof isany H1 rho x ms body dflt Hne Hnoany Hoth.
+  set (sigma := fun v => hd 0 (get rho v)).
+  assert (Hs : forall v, v <> x -> get rho v = [sigma v]).
+  { intros v Hv. destruct (Hoth v Hv) as [m Hm]. unfold sigma. rewrite Hm. reflexivity. }
+  set (sg := sig_m x sigma).
+  assert (Hmember : forall m, evaluate acc narrow posof isany ((x, [m]) :: rho) body dflt =
+                               sem_evaluate acc posof (sg m) body dflt).
+  { intros m. apply (evaluate_single acc narrow posof isany H1 (sg m)).
+    intros v. unfold get. simpl. destruct (x =? v) eqn:E.
+    - apply Nat.eqb_eq in E. subst v. unfold sg, sig_m. now rewrite Nat.eqb_refl.
+    - apply Nat.eqb_neq in E. assert (Hv : v <> x) by congruence. unfold sg, sig_m.
+      apply Nat.eqb_neq in Hv. rewrite Hv. apply Nat.eqb_neq in Hv. apply (Hs v Hv). }
+  assert (Ho : others x sigma ((x, ms) :: rho)).
+  { intros v Hv. unfold get. simpl. destruct (x =? v) eqn:E.
+    - apply Nat.eqb_eq in E. congruence.
+    - apply (Hs v Hv). }
+  assert (Hg : get ((x, ms) :: rho) x = ms) by (unfold get; simpl; now rewrite Nat.eqb_refl).
+  assert (Hn : nonempty (get ((x, ms) :: rho) x)).
+  { rewrite Hg. destruct ms as [|m ms']; [congruence|]. exists m. now left. }
+  assert (Hna : forall m, In m (get ((x, ms) :: rho) x) -> isany m = false) by (rewrite Hg; exact Hnoany).
+  pose proof (proj2 (blocks_all acc narrow posof isany H1 x sigma) body ((x, ms) :: rho) [] ((x, ms) :: rho) []
+                eq_refl Ho (good_nil x sigma) Hn Hna) as HB.
+  unfold evaluate at 1 3.
+  destruct (eval_block acc narrow posof isany ((x, ms) :: rho) body [] []) as [[res errs] ft].
+  destruct HB as [A [B _]]. rewrite Hg in A, B. cbn [map app] in A. cbn [fst snd]. split.
+  - intros z. rewrite (nodupn_seteq _ z), in_map_iff, in_flat_map. split.
+    + intros [o [<- Ho']]. apply A in Ho'. apply in_map_iff in Ho'. destruct Ho' as [m [<- Hm]].
+      exists m. split; auto. rewrite Hmember. unfold sem_evaluate. fold sg.
+      destruct (sem_block acc posof (sg m) body) as [r e]. now left.
+    + intros [m [Hm Hz]]. rewrite Hmember in Hz. unfold sem_evaluate in Hz.
+      destruct (sem_block acc posof (sg m) body) as [r e] eqn:E. cbn [fst] in Hz. destruct Hz as [<-|[]].
+      exists r. split; auto. apply A. apply in_map_iff. exists m. fold sg. rewrite E. auto.
+  - intros z. rewrite (nodupn_seteq _ z), (B z), !in_flat_map. split.
+    + intros [m [Hm Hz]]. exists m. split; auto. rewrite Hmember. unfold sem_evaluate. fold sg in Hz.
+      destruct (sem_block acc posof (sg m) body) as [r e]. cbn [snd] in *. apply (proj2 (nodupn_seteq _ _)). exact Hz.
+    + intros [m [Hm Hz]]. exists m. split; auto. rewrite Hmember in Hz. unfold sem_evaluate in Hz. fold sg.
+      destruct (sem_block acc posof (sg m) body) as [r e]. cbn [snd] in *. apply (proj1 (nodupn_seteq _ _)) in Hz. exact Hz.
+Qed.
 
 Lemma condition_splits_union :
   forall (acc : typ -> member -> bool -> bool) (narrow : typ -> member -> list member) (posof : var -> posn),
   (forall T m ex, acc T m ex = true -> narrow T m = [m]) ->
-  (forall T m ex, acc T m ex = false -> narrow T m = []) ->
   forall (x : var) (sigma : var -> member) c rho,
   others x sigma rho -> nonempty (get rho x) ->
   cret_sets x sigma rho (eval_cond acc narrow posof rho c)
     (filter (fun m => sem_cond acc posof (sig_m x sigma m) c) (get rho x))
     (filter (fun m => negb (sem_cond acc posof (sig_m x sigma m) c)) (get rho x)).
-Proof. intros acc narrow posof H1 H2 x sigma. exact (proj1 (cond_all_ok acc narrow posof H1 H2 x sigma)). Qed.
-
-Lemma tail_guard_inhabited :
-  tail_block or_body = true /\ tail_block fallthrough_body = false /\
-  (forall T m ex, acc_eq T m ex = true -> narrow_eq T m = [m]) /\
-  (forall T m ex, acc_eq T m ex = false -> narrow_eq T m = []).
-Proof.
-  repeat split.
-  - intros T m ex E. unfold acc_eq in E. unfold narrow_eq. now rewrite E.
-  - intros T m ex E. unfold acc_eq in E. unfold narrow_eq. now rewrite E.
-Qed.
+Proof. intros acc narrow posof H1 x sigma. exact (proj1 (cond_all_ok acc narrow posof H1 x sigma)). Qed.
